@@ -27,12 +27,23 @@ class _MatMulAddToGemmBase(RewriteRuleClassBase, abc.ABC):
             attributes["transB"] = 1
         return op.Gemm(input_a, input_b, input_c, **attributes)
 
-    def check(self, context, input_a, input_b, **_):
+    def check(self, context, input_a, input_b, input_c, **_):
         del context  # Not used
         check_result = MatchResult()
         # Rank of input_a and input_b must be 2
         if not (_ir_utils.has_rank(input_a, 2) and _ir_utils.has_rank(input_b, 2)):
             return check_result.fail("Rank of input_a and input_b must be 2")
+        # Gemm requires C to be unidirectionally broadcastable to (M, N)
+        c_shape = input_c.shape
+        if c_shape is None or c_shape.rank() > 2:
+            return check_result.fail("input_c must be broadcastable to (M, N)")
+        out_dims = (
+            input_a.shape[1 if self.trans_a else 0],
+            input_b.shape[0 if self.trans_b else 1],
+        )
+        for c_dim, out_dim in zip(reversed(list(c_shape)), reversed(out_dims)):
+            if not (c_dim == 1 or _ir_utils.same_dim(c_dim, out_dim)):
+                return check_result.fail("input_c must be broadcastable to (M, N)")
         return check_result
 
 
